@@ -350,9 +350,24 @@ impl DGen {
             9..=11 => V::Str(self.rng.pick(&["a", "b", "ab"]).to_string()),
             12 => V::Bool(self.rng.chance(1, 2)),
             13 => V::Null,
-            14 => V::Set(vec![V::Int(1), V::Int(2)]),
-            15 => V::Array(vec![V::Int(1), V::Str("a".into())]),
-            16 => V::Map(vec![(K::Int(1), V::Int(2)), (K::Str("a".into()), V::Null)]),
+            // collections that share prefixes / subsets, so that a matcher comparing only part
+            // of a collection is exposed
+            14 => match self.rng.below(3) {
+                0 => V::Set(vec![V::Int(1)]),
+                1 => V::Set(vec![V::Int(1), V::Int(2)]),
+                _ => V::Set(vec![]),
+            },
+            15 => match self.rng.below(4) {
+                0 => V::Array(vec![V::Int(1)]),
+                1 => V::Array(vec![V::Int(1), V::Str("a".into())]),
+                2 => V::Array(vec![V::Int(1), V::Str("a".into()), V::Int(2)]),
+                _ => V::Array(vec![]),
+            },
+            16 => match self.rng.below(3) {
+                0 => V::Map(vec![(K::Int(1), V::Int(2))]),
+                1 => V::Map(vec![(K::Int(1), V::Int(2)), (K::Str("a".into()), V::Null)]),
+                _ => V::Map(vec![]),
+            },
             17 => V::Date(self.rng.below(3)),
             18 => V::Bytes(vec![self.rng.below(2) as u8]),
             _ => V::Set(vec![V::Str("a".into()), V::Str("b".into())]),
